@@ -170,8 +170,11 @@ def findEdge (es : WEdges) (u v : Nat) : Option Nat :=
   let idxs := (es.zipIdx.filter fun (e, _) => e.1 == u && e.2.1 == v).map (·.2)
   idxs.getLast?
 
-def bumpEdge (es : WEdges) (k : Nat) : WEdges :=
-  es.zipIdx.map fun (e, i) => if i == k then (e.1, e.2.1, e.2.2 + 1) else e
+/-- `*edge_weight_mut(k) += 1` -/
+def bumpEdge : WEdges → Nat → WEdges
+  | [], _ => []
+  | e :: r, 0 => (e.1, e.2.1, e.2.2 + 1) :: r
+  | e :: r, k + 1 => e :: bumpEdge r k
 
 structure AddSt where
   g : G
